@@ -66,8 +66,16 @@ func (l *Layouter) opaque(n *types.Named) (Sort, bool) {
 	if s, ok := l.opaqueCfg[full]; ok {
 		return s, true
 	}
+	for pat, s := range l.opaqueCfg {
+		if strings.HasPrefix(pat, "*/") && strings.HasSuffix(full, pat[1:]) {
+			return s, true
+		}
+	}
 	name := n.Obj().Name()
 	path := n.Obj().Pkg().Path()
+	if name == "Element" && strings.HasSuffix(path, "/fp") {
+		return "Fp", true // base-field elements: pure data here (coordinates of points), kept apart from scalars
+	}
 	if name == "Element" && (strings.HasSuffix(path, "/fr") || strings.HasSuffix(path, "/fp") || strings.HasSuffix(path, "tinyfield") || strings.HasSuffix(path, "/field/goldilocks") || strings.Contains(path, "/field/")) {
 		return SF, true
 	}
